@@ -148,6 +148,18 @@ CHECKS = {
         note="getitem nodes of unpack cannot fail at run time; their frames are checked statically. Depths 0..6 cover both sides of MAX_TRACEBACK_DEPTH (read from the module at run time).",
         technique="bounded-exhaustive enumeration of call-site kinds and stack depths against independently captured stacks",
     ),
+
+    "C02": dict(
+        engine="E3", category="exploration",
+        text=("Bounded-exhaustive enumeration of programs against a reference interpreter that is independent of Plan._gather / get_argument_nodes: every expression up to nesting depth 2 (thorough 3) over "
+              "{int, three result nodes two of which evaluate equal, opaque list-subclass instance, list-subclass holding a Node} in list/tuple/set/dict (nodes as dict keys, colliding keys) as positional argument, keyword argument and output specification; "
+              "every mix of positional and keyword arguments in both keyword orders; every chain of 3 calls consuming earlier results in every position; unpack of finite and infinite iterables of every length against every requested length. "
+              "Every program runs under 1 worker x both schedulers and 2 workers; call functions return frozen records so order, naming and object identity of what they received are observable. "
+              "Schedule independence: selected chain / unpack programs are additionally explored under E1 (every schedule with <= 1 preemption, 2 workers, RandomQueue draws enumerated). The quantifier is over programs; the deciding step is complete enumeration below the size bound."),
+        design_ref="DESIGN.md section 4, C02",
+        note="Reference interpreter and identity tracking are part of the trusted base; sets with equal-but-distinguishable members are compared by equality only.",
+        technique="bounded-exhaustive program enumeration against a reference interpreter + stateless model checking of schedules on selected programs",
+    ),
 }
 
 NOT_APPLICABLE = {
